@@ -3,6 +3,7 @@ C06 — breadth-first layers over an abstract upstream/downstream pair (from the
 `design-spikes/BfsLayersReachability.lean`, extended). `up d` lists the cells draining into `d`,
 `down u` is the cell `u` drains into (if any). Nothing here knows about grids.
 -/
+import HydroVerif.Model.C06
 import Mathlib.Data.List.Basic
 import Mathlib.Data.List.Nodup
 import Mathlib.Data.List.Range
@@ -16,10 +17,7 @@ def layer (up : C → List C) (o : C) : Nat → List C
   | 0 => [o]
   | k+1 => (layer up o k).flatMap up
 
-/-- k-fold downstream walk -/
-def walk (down : C → Option C) : Nat → C → Option C
-  | 0, c => some c
-  | k+1, c => (down c).bind (walk down k)
+-- `walk down k c` (k-fold downstream walk) is defined in `Model/C06.lean` (the driver runs it)
 
 /-- membership in a layer = the downstream walk of that length ends at the outlet -/
 theorem mem_layer_iff (up : C → List C) (down : C → Option C)
